@@ -18,7 +18,7 @@ TABLE = 32  # SSL_SESSION_TABLE_SIZE of the default configuration
 def plan(tier):
     if tier == "quick":      # 40 runs, seed-stable shape
         return [(16, 50)] * 6 + [(8, 50)] * 12 + [(4, 80)] * 12 + [(2, 120)] * 10
-    cyc = [(16, 50), (8, 60), (4, 150), (2, 300), (12, 50), (6, 80), (3, 120), (8, 100), (4, 80), (2, 500), (16, 60), (5, 100)]
+    cyc = [(16, 50), (8, 50), (4, 100), (2, 200), (12, 50), (6, 60), (3, 100), (8, 60), (4, 60), (2, 300), (16, 50), (5, 80)]
     return [cyc[i % len(cyc)] for i in range(1008)]
 
 
@@ -634,6 +634,7 @@ def run(ctx):
                    "real clock and /dev/urandom: the sample certificates must be inside their validity period (they expire March 2027)",
                    "eviction from the 32-entry session cache is treated as a legal reason for a refused session-id resumption only when at least 32-N-1 other cache users overlapped the idle window"]
     extra = {"runs": nruns, "threads_per_run": sorted(nthreads_seen), "overlap_pairs": sorted("%s || %s" % p for p in pairs)[:400],
-             "tsan_reports_total": tsan_total, "tsan_reports_distinct": len(tsan_by_key)}
+             "tsan_reports_total": tsan_total, "tsan_reports_distinct": len(tsan_by_key),
+             "tsan_keys": {k: len(v[2]) for k, v in sorted(tsan_by_key.items())}}
     return vflib.finish(PID, ctx.tier, ctx.seed, "exploration", res, t0, rule, len(pairs), res.stats.get("cases", 0),
                         10 if not ctx.replay else 0, assumptions, extra_cov=extra, keep_out=ctx.keep)
